@@ -44,7 +44,7 @@ from zcsim.world import pkg_file_key
 ID = "C07"
 LEVEL = "exploration"
 HAS_CLOCK = False
-BUDGET = {"quick": (12000, 300), "thorough": (1500000, 1500)}
+BUDGET = {"quick": (60000, 300), "thorough": (1500000, 1500)}
 RULE = (
     "A case is one load (or one validator.main call) of a corrupted universe: "
     "generated std-datatype schema + accepted text cut into 1..3 resources, "
